@@ -23,7 +23,7 @@ from common.ctx import stable_hash
 from engines import io_engine_texts as T
 from engines.io_engine import load_corpus
 
-ATTEMPT_TIMEOUT = 20.0
+ATTEMPT_TIMEOUT = 30.0
 POLICIES = ["DEFAULT", "EDIF"]
 
 SIG_POLICY = {"edif": "edif.parse.policy_not_restored_on_error",
@@ -279,6 +279,12 @@ def attempt_body(fmt, path, policy0, good, fresh):
         res["outcome"] = "ok"
         res["wf_bb"], res["wf"] = wf_report(nl, fmt)
         res["has_top"] = nl.top_instance is not None
+        if fmt == "edif":
+            try:
+                from engines import io_engine_resolve
+                res["refs"] = io_engine_resolve.impl_refs(nl)
+            except Exception:  # noqa
+                res["refs"] = None
         res["size"] = sum(len(l.definitions) for l in nl.libraries)
     except Exception as e:  # noqa
         res["outcome"] = "raise"
@@ -614,7 +620,7 @@ def run(ctx):
                 recs += b
         finally:
             shutil.rmtree(tmp, ignore_errors=True)
-        sample = ctx.scale(260, None)
+        sample = ctx.scale(180, None)
         for rec in recs:
             ntok = len(T.SPANS[rec["fmt"]](rec["text"]))
             ctx.dist("text.%s.tokens%d" % (rec["fmt"], min(ntok // 200 * 200, 1000)))
